@@ -117,6 +117,67 @@ def worker_a(shard, nshards, plan):
     return res
 
 
+# ------------------------------------------------------------------ (c) dialect-test expressions in operator contexts
+
+CONTEXTS = {
+    "neg": "SELECT -{e}", "not": "SELECT NOT {e}", "mul": "SELECT {e} * 2", "lmul": "SELECT 2 * {e}", "rsub": "SELECT 1 - {e}", "eq": "SELECT {e} = 1",
+    "is_null": "SELECT {e} IS NULL", "and": "SELECT {e} AND x", "or_and": "SELECT x AND {e} OR y", "cast": "SELECT CAST({e} AS INT)", "dcolon": "SELECT {e}::INT",
+    "in": "SELECT {e} IN (1, 2)", "between": "SELECT {e} BETWEEN 1 AND 2", "paren": "SELECT ({e})", "arg": "SELECT COALESCE({e}, 1)", "where": "SELECT 1 FROM t WHERE {e}",
+    "concat": "SELECT {e} || 'x'", "case": "SELECT CASE WHEN {e} THEN 1 ELSE {e} END", "alias": "SELECT {e} AS c FROM t ORDER BY {e}", "bracket": "SELECT ({e})[1]",
+    "dot": "SELECT ({e}).f", "window": "SELECT SUM({e}) OVER (PARTITION BY {e} ORDER BY {e})", "like": "SELECT {e} LIKE 'a%'", "neg_paren": "SELECT -({e})",
+}
+
+
+def worker_c(shard, nshards, items):
+    """Every projection expression of the repository's dialect-test SELECT statements, rendered by its dialect and placed
+    (textually, unparenthesised) into every operator context; the result must round-trip like any other statement."""
+    logging.disable(logging.CRITICAL)
+    res = {"evaluations": 0, "parsed": 0, "changed": set(), "violations": {}, "samples": [], "unparsed": 0, "expressions": 0}
+    for i, (dialect, sql) in enumerate(items):
+        if i % nshards != shard:
+            continue
+        d = dialect or None
+        try:
+            tree = sqlglot.parse_one(sql, read=d)
+        except Exception:
+            continue
+        if not isinstance(tree, exp.Select):
+            continue
+        seen = set()
+        for proj in tree.expressions[:3]:
+            e = proj.unalias()
+            if isinstance(e, (exp.Star, exp.Column, exp.Literal)) or e.find(exp.Star) and isinstance(e, exp.Column):
+                continue
+            try:
+                etext = e.sql(d)
+            except Exception:
+                continue
+            if etext in seen or len(etext) > 200:
+                continue
+            seen.add(etext)
+            res["expressions"] += 1
+            for cname, tmpl in CONTEXTS.items():
+                r = roundtrip(tmpl.format(e=etext), dialect, {})
+                res["evaluations"] += 1
+                if r is None:
+                    res["unparsed"] += 1
+                    continue
+                res["parsed"] += 1
+                if r[0] == "ok":
+                    continue
+                _, kind, s1, detail = r
+                key = (kind, dialect or "base", "default", ("ctx." + cname, "e." + type(e).__name__))
+                v = res["violations"].get(key)
+                if v is None or len(tmpl.format(e=etext)) < len(v["sql"]):
+                    res["violations"][key] = {"count": (v["count"] if v else 0) + 1, "sql": tmpl.format(e=etext), "s1": s1, "detail": detail, "cost": 3}
+                else:
+                    v["count"] += 1
+        if len(res["samples"]) < 2 and seen:
+            res["samples"].append({"dialect": dialect or "base", "statement": sql[:120], "expressions": sorted(seen)[:2]})
+    res["violations"] = [(k, v) for k, v in res["violations"].items()]
+    return res
+
+
 # ------------------------------------------------------------------ (b) time formats
 
 def greedy_reference(fmt: str, mapping: dict[str, str]) -> str:
@@ -242,7 +303,20 @@ def run(ctx: Ctx) -> None:
         for d in dialects:
             plan.append((d, 2, ("default", "pretty") if d in K2_QUICK else ("default",)))
     res = ctx.run_shards(worker_a, ctx.jobs * 2, plan)
+    resc = ctx.run_shards(worker_c, ctx.jobs * 2, corpus.dialect_test_sql())
     viol, dropped = minimal_only(collect(res["violations"]))
+    violc = collect(resc["violations"])
+    # a context finding is reported once per (kind, dialect, expression class): the contexts it occurs in are listed in the text
+    byc: dict = {}
+    for (kind, dialect, on, tags), v in violc.items():
+        g = byc.setdefault((kind, dialect, on, (tags[1],)), dict(v, ctxs=[]))
+        g["ctxs"].append(tags[0])
+        if len(v["sql"]) < len(g["sql"]):
+            g.update(sql=v["sql"], s1=v["s1"], detail=v["detail"])
+        g["count"] = g.get("count", 0) + v["count"]
+    for k, g in byc.items():
+        g["detail"] = f"{g['detail']}; contexts: {', '.join(sorted(set(g['ctxs'])))}"
+        viol[(k[0], k[1], k[2], ("ctx",) + k[3])] = g
     for (kind, dialect, on, tags), v in sorted(viol.items(), key=lambda kv: (kv[1]["cost"], kv[0])):
         sig = f"C01|{kind}|{dialect}|{on}|{'+'.join(tags)}"
         ctx.violation(sig, f"[{dialect}/{on}] `{v['sql']}` -> `{v['s1']}` : {kind} ({v['detail']})",
@@ -257,14 +331,16 @@ def run(ctx: Ctx) -> None:
     ctx.evidence(
         "exploration",
         {
-            "evaluations": res["evaluations"] + resb["evaluations"],
+            "evaluations": res["evaluations"] + resb["evaluations"] + resc["evaluations"],
             "distinct_nontrivial": len(res["changed"]) + resb["nontrivial"],
             "rule": "E1: every G_core derivation with cost <= k (k=1: all dialects x 4 option sets; k=2: "
                     + ("every pair of operator / predicate / unary / cast / CASE constructs at expression level in the base dialect and 4 more" if quick else "all dialects") + ") round-tripped parse->generate->parse->generate; "
                     "non-trivial = distinct (dialect, statement) whose generated text differs from the input (the generator "
-                    "normalised something); plus every time-format string of <= n atoms per dialect mapping checked against a "
+                    "normalised something); plus every projection expression of the dialect-test SELECT statements placed into each of "
+                    + str(len(CONTEXTS)) + " operator contexts in its own dialect; plus every time-format string of <= n atoms per dialect mapping checked against a "
                     "greedy longest-match reference (non-trivial = format_time changed the string).",
-            "roundtrips_in_space": res["parsed"],
+            "roundtrips_in_space": res["parsed"] + resc["parsed"],
+            "dialect_test_expressions_in_contexts": {"expressions": resc["expressions"], "contexts": len(CONTEXTS), "roundtrips": resc["parsed"]},
             "not_parsed_in_dialect": res["unparsed"],
             "format_strings": resb["evaluations"],
             "format_atoms_n": nb,
